@@ -64,12 +64,109 @@ def fsOf (names : List String) (results : List (Option (List String))) : String 
 /-- **merged (run s) = merged (run s')**: tasks whose output lines do not depend on the worker state give the same
     merged file under every schedule, every number of workers and every initial worker state -/
 theorem merged_schedule_independent {σ χ : Type} (f : σ → χ → List String × σ) (chrs : List χ)
-    (names : List String) (copyHeader : Bool)
+    (names : List String) (copyHeader : Bool) (headerLines : Nat)
     (H : ∀ σ₁ σ₂ c, (f σ₁ c).1 = (f σ₂ c).1)
     (st st' : Nat → σ) (s s' : List Event)
     (hs : ValidSchedule chrs.length s) (hs' : ValidSchedule chrs.length s') :
-    mergeFiles (fsOf names (poolMap f chrs st s)) names copyHeader
-      = mergeFiles (fsOf names (poolMap f chrs st' s')) names copyHeader := by
+    mergeFiles (fsOf names (poolMap f chrs st s)) names copyHeader headerLines
+      = mergeFiles (fsOf names (poolMap f chrs st' s')) names copyHeader headerLines := by
   rw [schedule_independent f chrs H st st' s s' hs hs']
+
+/-! ### header lines are the lines the WRITER put there (repair `fix_merge_header`)
+
+A part file is `header ++ records`; the caller of `merge_files` passes `header.length`.  No hypothesis on the records:
+a record may start with `#` (a read id, a gene / transcript id, a contig name). -/
+
+/-- the records of the part file `n` (nothing for a missing file) -/
+def recordsOf (parts : String → Option (List String × List String)) (n : String) : List String :=
+  match parts n with
+  | none => []
+  | some p => p.2
+
+/-- the text of the part file `n`: header lines, then records -/
+def textOf (parts : String → Option (List String × List String)) : String → Option (List String) :=
+  fun n => (parts n).map (fun p => p.1 ++ p.2)
+
+theorem mergeFiles_go_records (parts : String → Option (List String × List String)) (k : Nat)
+    (hk : ∀ n p, parts n = some p → p.1.length = k) :
+    ∀ (ns : List String) (i : Nat), mergeFiles.go (textOf parts) false k ns i = ns.flatMap (recordsOf parts) := by
+  intro ns
+  induction ns with
+  | nil => intro i; simp [mergeFiles.go]
+  | cons n ns ih =>
+    intro i
+    simp only [mergeFiles.go, textOf, recordsOf, List.flatMap_cons]
+    cases hp : parts n with
+    | none => simpa [textOf, recordsOf] using ih (i + 1)
+    | some p =>
+      have hl := hk n p hp
+      have hd : (p.1 ++ p.2).drop k = p.2 := by rw [← hl, List.drop_left]
+      simp only [Option.map_some, Bool.false_and, Bool.false_eq_true, if_false, hd]
+      rw [ih (i + 1)]
+
+/-- **merge_keeps_every_record** (all merges with `copy_header=False`: read_assignments.tsv, corrected_reads.bed, both
+    GTFs, transcript_model_reads.tsv, the SQANTI-like table): whatever the records are, the merged lines are exactly the
+    records of the parts, part by part in the visiting order - no record is taken for a header line -/
+theorem merge_keeps_every_record (parts : String → Option (List String × List String)) (names : List String) (k : Nat)
+    (hk : ∀ n p, parts n = some p → p.1.length = k) :
+    mergeFiles (textOf parts) names false k = (mergeOrder names).flatMap (recordsOf parts) := by
+  unfold mergeFiles
+  exact mergeFiles_go_records parts k hk _ 0
+
+/-- with `copy_header=True` (the counts files): the first file of the visiting order is copied whole, of every other
+    file exactly the records -/
+theorem merge_keeps_every_record_with_header (parts : String → Option (List String × List String))
+    (names : List String) (k : Nat) (hk : ∀ n p, parts n = some p → p.1.length = k)
+    (n₀ : String) (rest : List String) (h₀ : mergeOrder names = n₀ :: rest) :
+    mergeFiles (textOf parts) names true k
+      = (match parts n₀ with | none => [] | some p => p.1) ++ (mergeOrder names).flatMap (recordsOf parts) := by
+  unfold mergeFiles
+  rw [h₀]
+  have tail : ∀ (ns : List String) (i : Nat), mergeFiles.go (textOf parts) true k ns (i + 1)
+      = ns.flatMap (recordsOf parts) := by
+    intro ns
+    induction ns with
+    | nil => intro i; simp [mergeFiles.go]
+    | cons n ns ih =>
+      intro i
+      simp only [mergeFiles.go, textOf, recordsOf, List.flatMap_cons]
+      cases hp : parts n with
+      | none => simpa [textOf, recordsOf] using ih (i + 1)
+      | some p =>
+        have hl := hk n p hp
+        have hd : (p.1 ++ p.2).drop k = p.2 := by rw [← hl, List.drop_left]
+        have hi : (i + 1 == 0) = false := by simp
+        simp only [Option.map_some, hi, Bool.and_false, Bool.false_eq_true, if_false, hd]
+        rw [ih (i + 1)]
+  simp only [mergeFiles.go, List.flatMap_cons]
+  cases hp : parts n₀ with
+  | none => simp [textOf, recordsOf, hp, tail]
+  | some p => simp [textOf, recordsOf, hp, tail, List.append_assoc]
+
+/-- non-vacuity of both statements and the failing input of the unrepaired tree in one example: the contig `#c1`
+    (3 GTF-like records) and `c2`; part files without a header (`k = 0`) -/
+def exHashParts : String → Option (List String × List String) := fun n =>
+  if n = "S_#c1.gtf" then some ([], ["#c1\tgene", "#c1\ttranscript", "#c1\texon"])
+  else if n = "S_c2.gtf" then some ([], ["c2\tgene"]) else none
+
+example : (∀ n p, exHashParts n = some p → p.1.length = 0) ∧
+    mergeFiles (textOf exHashParts) ["S_#c1.gtf", "S_c2.gtf"] false 0
+      = ["#c1\tgene", "#c1\ttranscript", "#c1\texon", "c2\tgene"] := by
+  refine ⟨?_, by decide⟩
+  intro n p h
+  unfold exHashParts at h
+  split at h
+  · cases h; rfl
+  · split at h
+    · cases h; rfl
+    · cases h
+
+/-- **merge_hash_witness**: under the header test by content of the unrepaired tree (`mergeFilesOrig`) all records of
+    the contig `#c1` vanish from the merged file (replayed on the real code: harness/props/C03.py, C06.py) -/
+theorem merge_hash_witness :
+    mergeFilesOrig (textOf exHashParts) ["S_#c1.gtf", "S_c2.gtf"] false = ["c2\tgene"] ∧
+    mergeFiles (textOf exHashParts) ["S_#c1.gtf", "S_c2.gtf"] false 0
+      = ["#c1\tgene", "#c1\ttranscript", "#c1\texon", "c2\tgene"] := by
+  decide +kernel
 
 end IsoVerif.Props.C06
